@@ -17,6 +17,7 @@
 (*   conv  rotation convention ("ZYZ","XYX","XZX","ZXZ","rot") or ""      *)
 (*   gp    1 global phase requested, 0 not requested, 2 optional (rules)   *)
 (*   err   "" or the class of the exception raised                         *)
+(*   chk   (input traces) 1: also check the classifier's invariance laws   *)
 (*   out   the returned operators: [g name, w wire positions, x extra ints]*)
 (*         x = <<dim>> for QubitUnitary, <<axis 1|2|3>> for SelectPauliRot *)
 (*         (w = control positions followed by the target position)         *)
@@ -120,7 +121,7 @@ Report(t) ==
       Bind(IF t.n = 2 THEN SyCnotClass(u) ELSE -1, LAMBDA c :
         <<"V", tid, "ok", SyFlags(u), c, 0,
           IF ~IsUnitary(u) THEN "input-not-unitary"
-          ELSE IF t.n = 2 /\ ~SyClassInvariant(u, c) THEN "classifier-not-invariant"
+          ELSE IF t.n = 2 /\ t.chk = 1 /\ ~SyClassInvariant(u, c) THEN "classifier-not-invariant"
           ELSE IF t.kind = "class" /\ t.exp # c THEN "classifier-disagrees-with-known-class"
           ELSE "ok">>))
   ELSE <<"V", tid, Contract(t), 0, -1, CountG(t, "CNOT"), "ok">>
